@@ -1,7 +1,584 @@
-//! C24 — not implemented yet.
-use vcore::Ctx;
+//! C24 — build results do not depend on file order or the run.
+//!
+//! Generated error-free projects (`p2_gen` on `vproj`: packages, interfaces,
+//! modules, generics across files, wildcard / item imports, path dependency
+//! projects, several source directories, `#[test]` modules, `examples/`,
+//! sometimes an injected warning so that the diagnostic multiset is not empty).
+//!
+//! sub `permute` (in-process, carries the permutation clause): the project is
+//! written to disk, `Metadata::paths` yields the `PathSet` list `veryl build`
+//! would process, and `veryl::pipeline::analyze` + `Emitter` (what cmd_build
+//! runs) are executed for the list in its own order, reversed, and in k
+//! generated permutations — each on a fresh thread (all analyzer state is
+//! thread-local).  Oracle: every order is error-free, the emitted text and the
+//! source-map bytes of every file are byte-identical, the multiset of
+//! diagnostics is identical.  (The order `sort_filelist` returns is recorded
+//! as a class only: any topological order is a correct filelist, C25.)
+//!
+//! sub `cli` (separate processes): `veryl build` on two copies of the project
+//! whose files were created in opposite orders gives byte-identical output
+//! trees (absolute paths normalised); building again after `veryl clean` and
+//! building a second time on top of the outputs gives the same bytes; passing
+//! all project files explicitly in a permuted order (`veryl build f3 f1 …`,
+//! the one way the CLI lets a user choose the processing order) gives the same
+//! `.sv` / `.sv.map` bytes and the same set of filelist lines.
 
-pub fn run(_ctx: &Ctx) {
-    println!("INCONCLUSIVE property=C24: check not implemented");
-    std::process::exit(2);
+use crate::p2_gen::{P2Opts, P2Project, draw_perm, gen_p2};
+use miette::Diagnostic;
+use serde_json::json;
+use std::collections::{BTreeMap, BTreeSet};
+use std::path::PathBuf;
+use vcore::{CaseCfg, Ctx, Draw, Outcome, hash_str};
+use veryl::cmd_build::CmdBuild;
+use veryl::pipeline::{self, AnalyzeOptions, Diag};
+use veryl_emitter::Emitter;
+use veryl_metadata::{Metadata, SourceMapTarget};
+use veryl_parser::resource_table;
+use veryl_path::PathSet;
+use vproj::cli::{CliResult, OutTree, Workspace};
+use vproj::genp::GenOpts;
+use vproj::toml::Target;
+
+// ------------------------------------------------------------ in-process
+
+#[derive(Clone, Debug, Default, PartialEq)]
+struct RunOut {
+    /// src path -> (emitted text, source-map bytes)
+    emitted: BTreeMap<String, (String, Vec<u8>)>,
+    /// sorted
+    diags: Vec<String>,
+    /// `sort_filelist` order (src paths, examples removed)
+    filelist: Vec<String>,
+    /// analysis stopped with errors (fail-fast), rendered
+    failed: Option<String>,
+}
+
+fn diag_key(d: &Diag) -> String {
+    let code = d.code().map(|c| c.to_string()).unwrap_or_default();
+    let sev = format!("{:?}", d.severity());
+    let labels: Vec<String> = d
+        .labels()
+        .map(|ls| {
+            ls.map(|l| format!("{}+{}:{}", l.offset(), l.len(), l.label().unwrap_or("")))
+                .collect()
+        })
+        .unwrap_or_default();
+    let file: Option<PathBuf> = match d {
+        Diag::Analyzer(x) => x.token_source().get_path().and_then(resource_table::get_path_value),
+        Diag::Cached(x) => x.token_path().map(PathBuf::from),
+    };
+    format!(
+        "{sev} [{code}] {d} @ {} {}",
+        file.map(|f| f.to_string_lossy().into_owned()).unwrap_or_default(),
+        labels.join(",")
+    )
+}
+
+/// What cmd_build does between `Metadata::paths` and writing files.
+fn build_in_process(md: &Metadata, paths: &[PathSet]) -> RunOut {
+    let opts = AnalyzeOptions {
+        defines: &[],
+        emit_mode: true,
+        incremental: false,
+        fail_fast: true,
+    };
+    let out = match pipeline::analyze(md, paths, opts, None, None) {
+        Ok(o) => o,
+        Err(e) => {
+            let mut text = e.to_string();
+            if let Some(ce) = e.downcast_ref::<pipeline::CheckError>() {
+                let mut v: Vec<String> = ce.related.iter().map(diag_key).collect();
+                v.sort();
+                text = format!("{text}: {}", v.join(" ; "));
+            }
+            return RunOut {
+                failed: Some(text),
+                ..Default::default()
+            };
+        }
+    };
+    let mut r = RunOut::default();
+    r.diags = out.check_error.related.iter().map(diag_key).collect();
+    r.diags.sort();
+    for context in out.contexts {
+        if context.skip || context.path.example {
+            continue;
+        }
+        let path = &context.path;
+        let mut emitter = Emitter::new(md, &path.prj, &path.src, &path.dst, &path.map);
+        emitter.emit(&context.parser.veryl, &context.input);
+        let text = emitter.as_str().to_string();
+        let map = if md.build.sourcemap_target != SourceMapTarget::None {
+            let sm = emitter.source_map();
+            sm.set_source_content(&context.input);
+            sm.to_bytes().unwrap_or_else(|e| format!("source map error: {e}").into_bytes())
+        } else {
+            vec![]
+        };
+        r.emitted.insert(path.src.to_string_lossy().into_owned(), (text, map));
+    }
+    r.filelist = CmdBuild::sort_filelist(md, paths, false)
+        .into_iter()
+        .filter(|x| !x.example)
+        .map(|x| x.src.to_string_lossy().into_owned())
+        .collect();
+    r
+}
+
+/// Run one order on a fresh thread; Err = panic message.
+fn run_order(md: &Metadata, paths: Vec<PathSet>) -> Result<RunOut, String> {
+    let md = md.clone();
+    let h = std::thread::Builder::new()
+        .stack_size(8 << 20)
+        .spawn(move || build_in_process(&md, &paths))
+        .expect("spawn");
+    h.join().map_err(|e| {
+        if let Some(s) = e.downcast_ref::<String>() {
+            s.clone()
+        } else if let Some(s) = e.downcast_ref::<&str>() {
+            s.to_string()
+        } else {
+            "panic".to_string()
+        }
+    })
+}
+
+fn common_classes(p: &P2Project, n_files: usize) -> BTreeSet<String> {
+    let mut c = BTreeSet::new();
+    c.insert(format!("files={}", n_files.min(12)));
+    c.insert(format!("deps={}", p.deps.len()));
+    c.insert(p.sources.label().to_string());
+    c.insert(
+        match &p.root.cfg.target {
+            Target::Source => "target=source",
+            Target::Directory(_) => "target=directory",
+            Target::Bundle(_) => "target=bundle",
+        }
+        .to_string(),
+    );
+    if p.has_wildcard() {
+        c.insert("wildcard_import".into());
+    }
+    if p.has_generic_across_files() {
+        c.insert("generic_used_across_files".into());
+    }
+    if !p.root.cfg.exclude_std {
+        c.insert("std_included".into());
+    }
+    if p.root.has_tests() {
+        c.insert("has_test_module".into());
+    }
+    if p.deps.iter().any(|x| !x.deps.is_empty()) {
+        c.insert("dep_depends_on_dep".into());
+    }
+    if p.root.cfg.omit_project_prefix {
+        c.insert("omit_project_prefix".into());
+    }
+    if p.root.cfg.strip_comments {
+        c.insert("strip_comments".into());
+    }
+    c
+}
+
+fn gen_opts(thorough: bool, std_per_mille: u32) -> P2Opts {
+    P2Opts {
+        gopts: GenOpts {
+            min_items: 5,
+            max_items: if thorough { 13 } else { 10 },
+            max_files: if thorough { 9 } else { 7 },
+            warn_per_mille: 350,
+            ..GenOpts::default()
+        },
+        multi_sources: true,
+        deps: true,
+        std_per_mille,
+        collide_per_mille: 0,
+        ensure_wildcard: true,
+    }
+}
+
+fn permute_case(d: &mut Draw, thorough: bool) -> Outcome {
+    let p = gen_p2(d, &gen_opts(thorough, 25));
+    let ws = Workspace::new("c24a", &p.root.cfg.name);
+    p.write(&ws, false);
+    let summary = p.summary();
+    let Ok(root) = ws.root.canonicalize() else {
+        return Outcome::skip("scratch directory vanished");
+    };
+    let mut md = match Metadata::load(root.join("Veryl.toml")) {
+        Ok(m) => m,
+        Err(e) => return Outcome::skip(format!("Veryl.toml not accepted: {}", first_line(&e.to_string()))),
+    };
+    let paths = match md.paths::<PathBuf>(&[], true, true) {
+        Ok(x) => x,
+        Err(e) => return Outcome::skip(format!("Metadata::paths failed: {}", first_line(&e.to_string()))),
+    };
+    {
+        // the known C25 collisions are excluded by the generator; a collision
+        // would make "the emitted file of a source" ambiguous
+        let mut seen = BTreeSet::new();
+        for x in paths.iter().filter(|x| !x.example) {
+            if !seen.insert(x.dst.clone()) {
+                return Outcome::skip("two sources share an output path (C25's domain)");
+            }
+        }
+    }
+    let n = paths.len();
+    let k = if thorough { 6 } else { 3 };
+    let mut orders: Vec<(String, Vec<usize>)> = vec![("reversed".into(), (0..n).rev().collect())];
+    for i in 0..k {
+        let mut perm = draw_perm(d, n);
+        if perm.iter().enumerate().all(|(a, b)| a == *b) {
+            perm.rotate_left(1);
+        }
+        orders.push((format!("perm{i}"), perm));
+    }
+    let base = match run_order(&md, paths.clone()) {
+        Ok(b) => b,
+        Err(m) => return Outcome::skip(format!("analysis panics in metadata order (C11's domain): {}", first_line(&m))),
+    };
+    if let Some(f) = &base.failed {
+        if std::env::var_os("VERIF_P2_KEEP").is_some() {
+            let name = ws.scratch.path.file_name().map(|x| x.to_string_lossy().into_owned()).unwrap_or_default();
+            let _ = std::fs::write(
+                format!("{}/reject-{name}.sh", vcore::util::work_root()),
+                format!("{}\n# {}", ws.script(), f.replace('\n', "\n# ")),
+            );
+        }
+        return Outcome::skip(format!(
+            "project is not error-free in metadata order ({})",
+            f.split('[').nth(1).and_then(|x| x.split(']').next()).unwrap_or("error")
+        ));
+    }
+    let rel = |s: &str| s.replace(&format!("{}/", ws.scratch.path.to_string_lossy()), "");
+    let mut filelist_varies = false;
+    for (name, perm) in &orders {
+        let permuted: Vec<PathSet> = perm.iter().map(|i| paths[*i].clone()).collect();
+        let order_txt: Vec<String> = permuted.iter().map(|x| rel(&x.src.to_string_lossy())).collect();
+        let mk = |extra: serde_json::Value| {
+            json!({"project": summary, "order": name, "processing_order": order_txt, "detail": extra, "script": ws.script()})
+        };
+        let got = match run_order(&md, permuted) {
+            Ok(g) => g,
+            Err(m) => {
+                return Outcome::fail(
+                    format!("order-dependent-panic:{}", first_line(&m).chars().take(60).collect::<String>()),
+                    format!("analysis/emission panics for processing order {order_txt:?} but not for the metadata order: {m}\nproject: {summary}"),
+                    mk(json!(null)),
+                );
+            }
+        };
+        if let Some(f) = &got.failed {
+            return Outcome::fail(
+                "diagnostics-depend-on-order/error-only-in-some-order",
+                format!("error-free in metadata order, but processing order {order_txt:?} reports: {}\nproject: {summary}", rel(f)),
+                mk(json!({"errors": rel(f)})),
+            );
+        }
+        if got.diags != base.diags {
+            let only_b: Vec<String> = base.diags.iter().filter(|x| !got.diags.contains(x)).map(|x| rel(x)).collect();
+            let only_g: Vec<String> = got.diags.iter().filter(|x| !base.diags.contains(x)).map(|x| rel(x)).collect();
+            return Outcome::fail(
+                "diagnostics-depend-on-order",
+                format!(
+                    "diagnostic multiset differs for processing order {order_txt:?}\nonly in metadata order: {only_b:#?}\nonly in this order: {only_g:#?}\ncounts {} / {}\nproject: {summary}",
+                    base.diags.len(),
+                    got.diags.len()
+                ),
+                mk(json!({"only_metadata_order": only_b, "only_this_order": only_g})),
+            );
+        }
+        for (src, (text, map)) in &base.emitted {
+            let Some((t2, m2)) = got.emitted.get(src) else {
+                return Outcome::fail(
+                    "emitted-file-set-depends-on-order",
+                    format!("{} is emitted in metadata order but not for {order_txt:?}\nproject: {summary}", rel(src)),
+                    mk(json!(null)),
+                );
+            };
+            if text != t2 {
+                let first = text
+                    .lines()
+                    .zip(t2.lines())
+                    .enumerate()
+                    .find(|(_, (a, b))| a != b)
+                    .map(|(n, (a, b))| format!("line {}: {a:?} / {b:?}", n + 1))
+                    .unwrap_or_else(|| format!("lengths {} / {}", text.len(), t2.len()));
+                return Outcome::fail(
+                    "emitted-sv-depends-on-order",
+                    format!("emitted text of {} differs for processing order {order_txt:?}: {first}\nproject: {summary}", rel(src)),
+                    mk(json!({"file": rel(src), "metadata_order": text, "this_order": t2})),
+                );
+            }
+            if map != m2 {
+                return Outcome::fail(
+                    "source-map-depends-on-order",
+                    format!("source map of {} differs for processing order {order_txt:?} (text identical)\nproject: {summary}", rel(src)),
+                    mk(json!({"file": rel(src)})),
+                );
+            }
+        }
+        if got.emitted.len() != base.emitted.len() {
+            return Outcome::fail(
+                "emitted-file-set-depends-on-order",
+                format!("{} files emitted for {order_txt:?}, {} in metadata order\nproject: {summary}", got.emitted.len(), base.emitted.len()),
+                mk(json!(null)),
+            );
+        }
+        if got.filelist != base.filelist {
+            filelist_varies = true;
+        }
+    }
+    let mut classes = common_classes(&p, n);
+    if !base.diags.is_empty() {
+        classes.insert("has_warnings".into());
+    }
+    if filelist_varies {
+        classes.insert("sort_filelist_order_varies_with_processing_order(not_asserted)".into());
+    }
+    let cross = !p.edges().is_empty();
+    let nontrivial = n >= 4 && cross && p.has_wildcard();
+    let text = format!("{summary}\norders: {:?}", orders.iter().map(|x| &x.1).collect::<Vec<_>>());
+    Outcome::pass(hash_str(&text), nontrivial, classes.into_iter().collect(), text)
+}
+
+// ------------------------------------------------------------------- CLI
+
+fn norm_tree(t: &OutTree, ws: &Workspace) -> OutTree {
+    vproj::cli::normalise_root(t, &ws.scratch.path.to_string_lossy())
+}
+
+fn norm_diags(r: &CliResult, ws: &Workspace) -> Vec<String> {
+    let sp = ws.scratch.path.to_string_lossy().into_owned();
+    let mut v: Vec<String> = r.diags.iter().map(|d| d.short().replace(&sp, "<S>")).collect();
+    v.sort();
+    v
+}
+
+fn kind_of(diff: &str) -> &'static str {
+    let first = diff.lines().next().unwrap_or("");
+    let name = first.split(':').next().unwrap_or("");
+    if name.ends_with(".sv.map") {
+        "source-map"
+    } else if name.ends_with(".sv") {
+        "sv"
+    } else {
+        "filelist"
+    }
+}
+
+fn cli_case(d: &mut Draw, thorough: bool) -> Outcome {
+    let p = gen_p2(d, &gen_opts(thorough, 60));
+    let ws1 = Workspace::new("c24b", &p.root.cfg.name);
+    p.write(&ws1, false);
+    let summary = p.summary();
+    let r1 = ws1.veryl(&["build"]);
+    if r1.timed_out {
+        return Outcome::skip("veryl build timed out");
+    }
+    if r1.panicked {
+        return Outcome::skip(format!("veryl build panics (C11's domain): {}", r1.panic_line()));
+    }
+    if r1.code != Some(0) {
+        let why = r1
+            .diags
+            .iter()
+            .find(|x| !x.code.is_empty())
+            .map(|x| x.code.clone())
+            .unwrap_or_else(|| format!("exit {:?}", r1.code));
+        return Outcome::skip(format!("generated project not accepted ({why})"));
+    }
+    let t1 = ws1.outputs();
+    let mk = |ws: &Workspace, other: &Workspace, extra: serde_json::Value| {
+        json!({"project": summary, "detail": extra, "script_copy1": ws.script(), "script_copy2": other.script()})
+    };
+
+    // ---- second copy, files created in the opposite order, own process
+    let ws2 = Workspace::new("c24c", &p.root.cfg.name);
+    p.write(&ws2, true);
+    let r2 = ws2.veryl(&["build"]);
+    if r2.timed_out {
+        return Outcome::skip("veryl build timed out");
+    }
+    let t2 = ws2.outputs();
+    if r2.code != r1.code || norm_diags(&r1, &ws1) != norm_diags(&r2, &ws2) {
+        return Outcome::fail(
+            "cli/two-runs-differ:exit-or-diagnostics",
+            format!(
+                "two copies of one project: exit {:?} / {:?}, diagnostics {:?} / {:?}\nstderr tail of copy 2:\n{}\nproject: {summary}",
+                r1.code,
+                r2.code,
+                norm_diags(&r1, &ws1),
+                norm_diags(&r2, &ws2),
+                r2.tail(10)
+            ),
+            mk(&ws1, &ws2, json!(null)),
+        );
+    }
+    if let Some(diff) = vproj::cli::diff_trees(&norm_tree(&t1, &ws1), &norm_tree(&t2, &ws2), "copy1", "copy2") {
+        return Outcome::fail(
+            format!("cli/two-runs-differ:{}", kind_of(&diff)),
+            format!("`veryl build` on two copies of one project (separate processes) leaves different outputs:\n{diff}project: {summary}"),
+            mk(&ws1, &ws2, json!({"diff": diff})),
+        );
+    }
+    let mut classes = common_classes(&p, p.files().len());
+
+    // ---- clean, build again (same path: no normalisation)
+    let c = ws1.veryl(&["clean"]);
+    if c.code == Some(0) {
+        if !ws1.outputs().is_empty() {
+            classes.insert("clean_leaves_some_outputs(not_asserted)".into());
+        }
+        let r3 = ws1.veryl(&["build"]);
+        if r3.timed_out {
+            return Outcome::skip("veryl build timed out");
+        }
+        let t3 = ws1.outputs();
+        if r3.code != r1.code {
+            return Outcome::fail(
+                "cli/rebuild-after-clean-differs:exit",
+                format!("build exits {:?}, after `veryl clean` {:?}\n{}\nproject: {summary}", r1.code, r3.code, r3.tail(10)),
+                mk(&ws1, &ws2, json!(null)),
+            );
+        }
+        if let Some(diff) = vproj::cli::diff_trees(&t1, &t3, "first-build", "after-clean") {
+            return Outcome::fail(
+                format!("cli/rebuild-after-clean-differs:{}", kind_of(&diff)),
+                format!("`veryl build`, `veryl clean`, `veryl build` in one directory: outputs differ:\n{diff}project: {summary}"),
+                mk(&ws1, &ws2, json!({"diff": diff})),
+            );
+        }
+        classes.insert("clean_and_rebuild".into());
+    } else {
+        classes.insert("clean_failed(not_asserted)".into());
+    }
+
+    // ---- a second build on top of the outputs
+    let r4 = ws2.veryl(&["build"]);
+    if r4.timed_out {
+        return Outcome::skip("veryl build timed out");
+    }
+    let t4 = ws2.outputs();
+    if r4.code != r2.code {
+        return Outcome::fail(
+            "cli/second-build-differs:exit",
+            format!("second build exits {:?}, first {:?}\n{}\nproject: {summary}", r4.code, r2.code, r4.tail(10)),
+            mk(&ws2, &ws1, json!(null)),
+        );
+    }
+    if let Some(diff) = vproj::cli::diff_trees(&t2, &t4, "first-build", "second-build") {
+        return Outcome::fail(
+            format!("cli/second-build-differs:{}", kind_of(&diff)),
+            format!("running `veryl build` twice in one directory changes the outputs:\n{diff}project: {summary}"),
+            mk(&ws2, &ws1, json!({"diff": diff})),
+        );
+    }
+
+    // ---- all root files as explicit arguments, permuted
+    let mut files: Vec<String> = p
+        .files()
+        .into_iter()
+        .filter(|(f, _)| f.owner == crate::p2_gen::Owner::Root)
+        .map(|(f, _)| f.rel)
+        .collect();
+    files.sort();
+    let perm = draw_perm(d, files.len());
+    let permuted: Vec<String> = perm.iter().map(|i| files[*i].clone()).collect();
+    if ws2.veryl(&["clean"]).code == Some(0) {
+        let mut args: Vec<&str> = vec!["build"];
+        args.extend(permuted.iter().map(|x| x.as_str()));
+        let r5 = ws2.veryl(&args);
+        if r5.timed_out {
+            return Outcome::skip("veryl build timed out");
+        }
+        let t5 = ws2.outputs();
+        if r5.code != r2.code {
+            return Outcome::fail(
+                "cli/explicit-file-order:exit",
+                format!("`veryl build {}` exits {:?}, `veryl build` {:?}\n{}\nproject: {summary}", permuted.join(" "), r5.code, r2.code, r5.tail(12)),
+                mk(&ws2, &ws1, json!({"args": permuted})),
+            );
+        }
+        let bundle = matches!(p.root.cfg.target, Target::Bundle(_));
+        let fl = p.root.cfg.filelist_name();
+        let strip = |t: &OutTree| -> OutTree {
+            t.iter()
+                .filter(|(k, _)| **k != fl)
+                .filter(|(k, _)| !(bundle && k.ends_with(".sv")))
+                .map(|(k, v)| (k.clone(), v.clone()))
+                .collect()
+        };
+        if let Some(diff) = vproj::cli::diff_trees(&strip(&t2), &strip(&t5), "veryl-build", "explicit-permuted-files") {
+            return Outcome::fail(
+                format!("cli/explicit-file-order:{}", kind_of(&diff)),
+                format!("`veryl build {}` (all project files, permuted) leaves other bytes than `veryl build`:\n{diff}project: {summary}", permuted.join(" ")),
+                mk(&ws2, &ws1, json!({"args": permuted, "diff": diff})),
+            );
+        }
+        let lines = |t: &OutTree| -> Vec<String> {
+            let mut v: Vec<String> = t
+                .get(&fl)
+                .map(|b| String::from_utf8_lossy(b).lines().map(|x| x.to_string()).collect())
+                .unwrap_or_default();
+            v.sort();
+            v
+        };
+        if lines(&t2) != lines(&t5) {
+            return Outcome::fail(
+                "cli/explicit-file-order:filelist-content",
+                format!(
+                    "`veryl build {}` lists other files than `veryl build`:\n{:?}\n{:?}\nproject: {summary}",
+                    permuted.join(" "),
+                    lines(&t2),
+                    lines(&t5)
+                ),
+                mk(&ws2, &ws1, json!({"args": permuted})),
+            );
+        }
+        if t2.get(&fl) != t5.get(&fl) {
+            classes.insert("filelist_line_order_varies_with_argument_order(not_asserted)".into());
+        }
+        classes.insert("explicit_permuted_file_arguments".into());
+    }
+    if !r1.diags.is_empty() {
+        classes.insert("has_warnings_printed".into());
+    }
+    let n_files = p.files().len();
+    let nontrivial = n_files >= 4 && !p.edges().is_empty() && p.has_wildcard();
+    let text = format!("{summary}\nargs: {permuted:?}");
+    Outcome::pass(hash_str(&text), nontrivial, classes.into_iter().collect(), text)
+}
+
+fn first_line(x: &str) -> String {
+    x.lines().next().unwrap_or("").chars().take(120).collect()
+}
+
+pub fn run(ctx: &Ctx) {
+    let thorough = !ctx.is_quick();
+    let xdg = vcore::util::Scratch::new("c24-xdg");
+    // SAFETY: no other thread exists yet
+    unsafe { std::env::set_var("XDG_CACHE_HOME", &xdg.path) };
+    let mut na = ctx.scale(320, 5000);
+    let mut nb = ctx.scale(110, 2500);
+    if let Some(k) = std::env::var("VERIF_C24_CASES").ok().and_then(|x| x.parse::<usize>().ok()) {
+        na = k; // development aid
+        nb = k / 3;
+    }
+    ctx.run("permute", CaseCfg::cases(na).choices(2500).timeout_s(600).shrink_iters(60), move |d| {
+        permute_case(d, thorough)
+    });
+    ctx.run("cli", CaseCfg::cases(nb).choices(2500).timeout_s(1200).shrink_iters(25), move |d| {
+        cli_case(d, thorough)
+    });
+    drop(xdg);
+    ctx.assume("in-process sub: veryl::pipeline::analyze (fail_fast, incremental off) + Emitter::new/emit/source_map as cmd_build calls them, on the PathSet list of Metadata::paths; each order on a fresh 8 MiB thread; the fragment cache is not involved (C04)");
+    ctx.assume("diagnostic identity = severity, code, rendered message, owning file, label offsets/lengths/texts");
+    ctx.assume("the order of the lines of the filelist (and so of a bundle) under a permuted processing order is not asserted here (any topological order satisfies C25); for identical processing order (two copies, rebuild, second build) the filelist must be byte-identical");
+    ctx.assume("CLI sub: outputs = *.sv, *.sv.map, *.f, *.list.rb outside .build; the absolute scratch path is normalised when two copies at different paths are compared; `[build] incremental = false`");
+    ctx.assume("projects with file-level dependency cycles are excluded by construction (veryl panics on them: known C06 side finding); projects the compiler rejects are skipped and counted");
+    ctx.finish(
+        "exploration",
+        "p2_gen projects; permute: metadata order vs reversal vs k generated permutations of the PathSet list, each on a fresh thread; cli: two copies with opposite file creation order, clean + rebuild, second build, explicit permuted file arguments; non-trivial = >= 4 analysed files with cross-file references and a wildcard import; distinct by project summary + orders",
+    );
 }
